@@ -280,6 +280,112 @@ func toSArms(path string) {
 	fmt.Printf("def toSDefault : String := %s\n", leanStr(dflt))
 }
 
+// the composite literal of `var binOpMap = map[TokenType]BinOpInfo{...}` in fc/wrapper.go
+func binOpTable(path string) {
+	_, f := parseFile(path)
+	type row struct {
+		tok, prec, goName, isBool string
+	}
+	var rows []row
+	for _, d := range f.Decls {
+		gd, ok := d.(*ast.GenDecl)
+		if !ok {
+			continue
+		}
+		for _, sp := range gd.Specs {
+			vs, ok := sp.(*ast.ValueSpec)
+			if !ok || len(vs.Names) != 1 || vs.Names[0].Name != "binOpMap" || len(vs.Values) != 1 {
+				continue
+			}
+			cl, ok := vs.Values[0].(*ast.CompositeLit)
+			if !ok {
+				continue
+			}
+			for _, el := range cl.Elts {
+				kv, ok := el.(*ast.KeyValueExpr)
+				if !ok {
+					continue
+				}
+				key := ""
+				if id, ok := kv.Key.(*ast.Ident); ok {
+					key = strings.TrimPrefix(id.Name, "New_TokenType_")
+				}
+				v, ok := kv.Value.(*ast.CompositeLit)
+				if !ok || len(v.Elts) != 3 {
+					rows = append(rows, row{key, "0", "?", "false"})
+					continue
+				}
+				get := func(e ast.Expr) string {
+					switch x := e.(type) {
+					case *ast.BasicLit:
+						return strings.Trim(x.Value, "\"")
+					case *ast.Ident:
+						return x.Name
+					case *ast.KeyValueExpr:
+						if bl, ok := x.Value.(*ast.BasicLit); ok {
+							return strings.Trim(bl.Value, "\"")
+						}
+						if id, ok := x.Value.(*ast.Ident); ok {
+							return id.Name
+						}
+					}
+					return "?"
+				}
+				rows = append(rows, row{key, get(v.Elts[0]), get(v.Elts[1]), get(v.Elts[2])})
+			}
+		}
+	}
+	sort.Slice(rows, func(i, j int) bool { return rows[i].tok < rows[j].tok })
+	fmt.Println("/-- binOpMap of fc/wrapper.go: (token type, precedence, Go name, IsBoolOp), sorted by token type -/")
+	fmt.Println("def binOpTable : List (String × Nat × String × Bool) := [")
+	for i, r := range rows {
+		sep := ","
+		if i == len(rows)-1 {
+			sep = ""
+		}
+		fmt.Printf("  (%s, %s, %s, %s)%s\n", leanStr(r.tok), r.prec, leanStr(r.goName), r.isBool, sep)
+	}
+	fmt.Println("]")
+}
+
+// every binary expression mentioning `.Precedence` inside the given functions of a file
+func precedenceUses(path string, funcs []string, defName string) {
+	fset, f := parseFile(path)
+	var items []string
+	for _, d := range f.Decls {
+		fd, ok := d.(*ast.FuncDecl)
+		if !ok || fd.Body == nil {
+			continue
+		}
+		want := false
+		for _, n := range funcs {
+			if fd.Name.Name == n {
+				want = true
+			}
+		}
+		if !want {
+			continue
+		}
+		ast.Inspect(fd.Body, func(n ast.Node) bool {
+			if be, ok := n.(*ast.BinaryExpr); ok {
+				var sb strings.Builder
+				printer.Fprint(&sb, fset, be)
+				if strings.Contains(sb.String(), ".Precedence") {
+					items = append(items, fd.Name.Name+": "+strings.Join(strings.Fields(sb.String()), " "))
+					return false
+				}
+			}
+			return true
+		})
+	}
+	q := make([]string, len(items))
+	for i, it := range items {
+		q[i] = leanStr(it)
+	}
+	fmt.Printf("/-- uses of BinOpInfo.Precedence in %v of %s -/\n", funcs, path)
+	fmt.Printf("def %s : List String := [%s]\n", defName, strings.Join(q, ", "))
+}
+
 var identRe = regexp.MustCompile(`[A-Za-z_][A-Za-z0-9_]*`)
 
 func main() {
@@ -296,6 +402,11 @@ func main() {
 		fmt.Println("namespace Folang.Generated")
 		exportedFuncs(repo+"/pkg/slice/slice.go", "sliceFuncs")
 		sliceShapes(repo+"/pkg/slice/slice.go", "sliceShapes")
+		fmt.Println("end Folang.Generated")
+	case "fc":
+		fmt.Println("namespace Folang.Generated")
+		binOpTable(repo + "/fc/wrapper.go")
+		precedenceUses(repo+"/fc/gen_parser.go", []string{"parseBinAfter", "parseExprWithPrec", "parseExpr"}, "precedenceUses")
 		fmt.Println("end Folang.Generated")
 	case "lib":
 		fmt.Println("namespace Folang.Generated")
